@@ -61,6 +61,8 @@ type c27In struct {
 	Disc    bool   `json:"disc"`
 	Exch    string `json:"exch,omitempty"` // ok | fail | empty
 	ExTok   string `json:"extok,omitempty"`
+	TokLen  int    `json:"toklen,omitempty"` // pad the bearer (ExTok / Token) to exactly this many bytes
+	UseID   bool   `json:"useid,omitempty"`  // server configured with UseIDTokenAsBearer: the bearer is the id_token
 }
 
 var c27Key = []byte("c27-session-key-0123456789abcdef")
@@ -441,12 +443,21 @@ type c27ServerKey struct {
 	prefix string
 	disc   bool
 	allow  string
+	useID  bool
+}
+
+// c27Tok pads a bearer to exactly n bytes with a period-4 filler (cookie-size boundaries).
+func c27Tok(base string, n int) string {
+	if base == "" || n <= len(base) {
+		return base
+	}
+	return base + strings.Repeat("wxyz", (n-len(base))/4+1)[:n-len(base)]
 }
 
 var c27Servers = map[c27ServerKey]*vgirpc.HttpServer{}
 
-func c27Server(prefix string, disc bool, allow []string) *vgirpc.HttpServer {
-	k := c27ServerKey{prefix, disc, strings.Join(allow, "\x00")}
+func c27Server(prefix string, disc bool, allow []string, useID bool) *vgirpc.HttpServer {
+	k := c27ServerKey{prefix, disc, strings.Join(allow, "\x00"), useID}
 	if h, ok := c27Servers[k]; ok {
 		return h
 	}
@@ -465,7 +476,7 @@ func c27Server(prefix string, disc bool, allow []string) *vgirpc.HttpServer {
 		issuer = idp.srv.URL + "/bad"
 	}
 	if err := hs.SetOAuthResourceMetadata(&vgirpc.OAuthResourceMetadata{
-		Resource: "https://rs.example" + prefix, AuthorizationServers: []string{issuer}, ClientID: "cid"}); err != nil {
+		Resource: "https://rs.example" + prefix, AuthorizationServers: []string{issuer}, ClientID: "cid", UseIDTokenAsBearer: useID}); err != nil {
 		panic(err)
 	}
 	if err := hs.SetOAuthPkce(vgirpc.OAuthPkceConfig{AllowedReturnOrigins: allow}); err != nil {
@@ -477,7 +488,7 @@ func c27Server(prefix string, disc bool, allow []string) *vgirpc.HttpServer {
 }
 
 func c27RunCallback(in c27In) CaseOut {
-	hs := c27Server(in.Prefix, in.Disc, nil)
+	hs := c27Server(in.Prefix, in.Disc, nil, in.UseID)
 	key := vgirpc.VerifPkceSessionKey(hs)
 	idp := c27GetIdP()
 	sessName, authName := vgirpc.VerifPkceCookieNames()
@@ -490,13 +501,18 @@ func c27RunCallback(in c27In) CaseOut {
 		if state == "=" {
 			state = in.F.S
 		}
-		tok := in.ExTok
+		tok := c27Tok(in.ExTok, in.TokLen)
+		other := "OTHER-" + in.ExTok // the token of the response that is NOT the bearer
 		idp.mu.Lock()
 		idp.calls = nil
 		switch in.Exch {
 		case "ok":
 			idp.status = 200
-			b, _ := json.Marshal(map[string]any{"access_token": tok, "token_type": "Bearer", "expires_in": 3600})
+			body := map[string]any{"access_token": tok, "id_token": other, "token_type": "Bearer", "expires_in": 3600}
+			if in.UseID {
+				body["access_token"], body["id_token"] = other, tok
+			}
+			b, _ := json.Marshal(body)
 			idp.body = string(b)
 		case "empty":
 			idp.status, idp.body, tok = 200, `{"token_type":"Bearer"}`, ""
@@ -535,6 +551,27 @@ func c27RunCallback(in c27In) CaseOut {
 		idp.mu.Lock()
 		calls := append([][2]string(nil), idp.calls...)
 		idp.mu.Unlock()
+		// a token anywhere it must not be: the bearer outside Location / the auth cookie, the other token anywhere
+		leak := false
+		respBody, _ := io.ReadAll(resp.Body)
+		if tok != "" && in.Exch == "ok" {
+			if strings.Contains(string(respBody), tok) || strings.Contains(string(respBody), other) {
+				leak = true
+			}
+			for name, vals := range resp.Header {
+				for _, v := range vals {
+					if strings.Contains(v, other) {
+						leak = true
+					}
+					if name == "Location" || (name == "Set-Cookie" && strings.HasPrefix(v, authName+"=")) {
+						continue
+					}
+					if strings.Contains(v, tok) {
+						leak = true
+					}
+				}
+			}
+		}
 		base, sep, bearer := loc, 0, false
 		if tok != "" {
 			if i := strings.Index(loc, "token="+tok); i > 0 {
@@ -558,6 +595,24 @@ func c27RunCallback(in c27In) CaseOut {
 		if bearer {
 			tags = append(tags, "bearer-in-location")
 		}
+		if leak {
+			tags = append(tags, "token-leaked-elsewhere")
+		}
+		if in.Exch == "ok" && len(calls) > 0 {
+			switch n := len(tok); {
+			case n > 4096:
+				tags = append(tags, "bearer>4096")
+			case n > 3900:
+				tags = append(tags, "bearer-3901..4096")
+			case n >= 3000:
+				tags = append(tags, "bearer-3000..3900")
+			default:
+				tags = append(tags, "bearer-small")
+			}
+			if in.UseID {
+				tags = append(tags, "bearer-is-id-token")
+			}
+		}
 		if auth != nil {
 			tags = append(tags, "auth-cookie-set", "browser-"+c27BrowserKind(base))
 		}
@@ -579,21 +634,22 @@ func c27RunCallback(in c27In) CaseOut {
 		}
 		exch := "C27.ExFail"
 		if in.Exch == "ok" {
-			exch = App("C27.ExOk", B(tok))
+			exch = App("C27.ExOk", BL(tok))
 		} else if in.Exch == "empty" {
 			exch = App("C27.ExOk", "[]")
 		}
 		cin := App("C27.Build_cbin", B(in.Prefix), B(in.Err), B(in.Code), B(state), cookieOpt, Bool(in.Disc), exch)
 		authOpt := "None"
 		if auth != nil {
-			authOpt = "(Some " + B(*auth) + ")"
+			authOpt = "(Some " + BL(*auth) + ")"
 		}
 		cout := App("C27.Build_cbout", N(uint64(resp.StatusCode)),
 			ListOf(calls, func(c [2]string) string { return Pair(B(c[0]), B(c[1])) }),
-			B(base), N(uint64(sep)), Bool(bearer), authOpt)
+			B(base), N(uint64(sep)), Bool(bearer), authOpt, Bool(leak))
 		out = CaseOut{Coq: Pair(App("C27.ICallback", cin, ck, rec.coq()), App("C27.OCb", cout)),
 			Tags: tags, Nontrivial: true,
-			Obs: map[string]any{"status": resp.StatusCode, "calls": calls, "location": loc, "base": base, "bearer": bearer, "auth": auth}}
+			Obs: map[string]any{"status": resp.StatusCode, "calls": calls, "location": c27Short(loc), "base": base, "bearer": bearer,
+				"auth_set": auth != nil, "auth_len": c27PtrLen(auth), "bearer_len": len(tok), "leak": leak}}
 	})
 	return out
 }
@@ -607,7 +663,7 @@ func c27PagePath(in c27In) string {
 }
 
 func c27RunLogin(in c27In) CaseOut {
-	hs := c27Server(in.Prefix, true, in.Allow)
+	hs := c27Server(in.Prefix, true, in.Allow, false)
 	key := vgirpc.VerifPkceSessionKey(hs)
 	sessName, _ := vgirpc.VerifPkceCookieNames()
 	path := c27PagePath(in)
@@ -660,9 +716,10 @@ func c27Allow(cfg []string) []string {
 }
 
 func c27RunEarly(in c27In) CaseOut {
-	hs := c27Server(in.Prefix, true, in.Allow)
+	hs := c27Server(in.Prefix, true, in.Allow, false)
 	_, authName := vgirpc.VerifPkceCookieNames()
 	path := c27PagePath(in)
+	in.Token = c27Tok(in.Token, in.TokLen)
 	req := httptest.NewRequest("GET", "http://rs.example"+path+"?_vgi_return_to="+url.QueryEscape(in.URL), nil)
 	req.Header.Set("Accept", "text/html")
 	if in.Token != "" {
@@ -679,15 +736,18 @@ func c27RunEarly(in c27In) CaseOut {
 			e = "(Some " + Pair(B(loc[:i-1]), N(uint64(loc[i-1]))) + ")"
 			tags = append(tags, "early-redirect-with-token")
 		} else if strings.Contains(loc, in.Token) {
-			e = "(Some " + Pair(B(loc), N(0)) + ")"
+			e = "(Some " + Pair(BL(loc), N(0)) + ")"
 		}
 	}
 	if e == "None" {
 		tags = append(tags, "early-no-token-redirect")
 	}
-	coqIn := App("C27.IEarly", ListOf(c27Allow(in.Allow), B), B(in.URL), B(in.Token), c27Parse(in.URL).coq())
+	coqIn := App("C27.IEarly", ListOf(c27Allow(in.Allow), B), B(in.URL), BL(in.Token), c27Parse(in.URL).coq())
+	if len(in.Token) > 3900 {
+		tags = append(tags, "early-bearer>3900")
+	}
 	return CaseOut{Coq: Pair(coqIn, App("C27.OEarly", e)), Tags: tags, Nontrivial: true,
-		Obs: map[string]any{"status": resp.StatusCode, "location": loc}}
+		Obs: map[string]any{"status": resp.StatusCode, "location": c27Short(loc), "bearer_len": len(in.Token)}}
 }
 
 func c27Run(in c27In) CaseOut {
@@ -846,6 +906,13 @@ func c27CallbackCase(r *rand.Rand) c27In {
 	in.F = c27Fields{V: c27Rand(r, 43), S: c27Rand(r, 32),
 		U: pick("/vgi/describe?x=1", "/vgi", "/describe", "/", "/\\evil.com", "https://evil.example/", "/other", "//evil.example/x", "/vgi/x#f"),
 		R: pick("", "", "", "https://cupola.query-farm.services/app", "https://cupola.query-farm.services/app#/route", "http://localhost:3000/cb", "https://evil.example/x")}
+	if r.Intn(3) == 0 { // bearer sizes: mostly near the cookie-size limits
+		in.TokLen = []int{3800 + r.Intn(400), 3900, 3901, 4000 + r.Intn(200), 4096, 4097, 5000 + r.Intn(5000), 8192, 8193}[r.Intn(9)]
+		in.UseID = r.Intn(3) == 0
+		if r.Intn(2) == 0 {
+			return in // otherwise perfect request
+		}
+	}
 	switch r.Intn(14) {
 	case 0:
 		in.Err = pick("access_denied", "server_error")
@@ -1042,6 +1109,30 @@ func c27Gen(r *rand.Rand, n int, tier string) []c27In {
 			vary(func(x *c27In) { x.F.U = "https://evil.example/" })
 		}
 	}
+	// bearer sizes around the browser cookie limits (3900 / 4096 / 8192): complete same-origin
+	// logins (no return URL), return flows, id_token-as-bearer servers, the early redirect
+	sizes := []int{3899, 3900, 3901, 4095, 4096, 4097, 6000, 8192, 16384}
+	if quick {
+		sizes = []int{3900, 3901, 4096, 4097, 8192}
+	}
+	for si, n := range sizes {
+		for pi, p := range []string{"", "/vgi"} {
+			for ui, useID := range []bool{false, true} {
+				if quick && (si+pi+ui)%2 != 0 {
+					continue
+				}
+				add(c27In{Kind: "callback", Origin: "honest", Mut: "none", Cookie: "present", Disc: true, Exch: "ok", Prefix: p,
+					Code: "c0de", State: "=", ExTok: "TOK-" + c27Rand(r, 8), TokLen: n, UseID: useID, Age: 30,
+					F: c27Fields{V: c27Rand(r, 43), S: c27Rand(r, 32), U: p + []string{"/describe", "", "/describe?x=1#frag"}[si%3], R: ""}})
+			}
+		}
+		add(c27In{Kind: "callback", Origin: "honest", Mut: "none", Cookie: "present", Disc: true, Exch: "ok", Prefix: "/vgi",
+			Code: "c0de", State: "=", ExTok: "TOK-" + c27Rand(r, 8), TokLen: n, UseID: si%2 == 0, Age: 30,
+			F: c27Fields{V: c27Rand(r, 43), S: c27Rand(r, 32), U: "/vgi/describe", R: "https://cupola.query-farm.services/app"}})
+		add(c27In{Kind: "early", Prefix: []string{"", "/vgi"}[si%2], Page: []string{"/describe", ""}[si%2],
+			URL: []string{"https://cupola.query-farm.services/app", "https://evil.com/", "http://localhost:3000/cb#/r"}[si%3],
+			Token: "tok-" + c27Rand(r, 8), TokLen: n})
+	}
 	add(c27In{Kind: "early", Prefix: "/vgi", URL: "https://cupola.query-farm.services/app", Token: ""})
 	add(c27In{Kind: "login", Prefix: "", Page: "/describe", URL: "https://evil.com", Query: "&next=//evil.com&x=" + strings.Repeat("q", 2100)})
 	add(c27In{Kind: "login", Prefix: "/vgi", Page: "", URL: "http://localhost/", Query: "&a=/\\evil.com"})
@@ -1080,9 +1171,24 @@ func c27Gen(r *rand.Rand, n int, tier string) []c27In {
 				Allow: c27Allowlists[r.Intn(4)], Query: []string{"", "&x=1", "&n=//evil.com", "&b=\\\\e"}[r.Intn(4)]})
 		default:
 			add(c27In{Kind: "early", Prefix: c27Prefixes[r.Intn(2)], Page: []string{"", "/describe"}[r.Intn(2)], URL: c27GenReturnURL(r),
-				Allow: c27Allowlists[r.Intn(4)], Token: []string{"", "tok-" + c27Rand(r, 6)}[r.Intn(2)]})
+				Allow: c27Allowlists[r.Intn(4)], Token: []string{"", "tok-" + c27Rand(r, 6)}[r.Intn(2)],
+				TokLen: []int{0, 0, 3901, 4097, 3000 + r.Intn(6000)}[r.Intn(5)]})
 		}
 	}
 	r.Shuffle(len(out), func(i, j int) { out[i], out[j] = out[j], out[i] }) // spread the kinds over the evaluation shards
 	return out
+}
+
+func c27Short(s string) string {
+	if len(s) > 200 {
+		return s[:160] + fmt.Sprintf("...(%d bytes)", len(s))
+	}
+	return s
+}
+
+func c27PtrLen(p *string) int {
+	if p == nil {
+		return -1
+	}
+	return len(*p)
 }
